@@ -79,7 +79,8 @@ def jCell : Cell → Json
   | .float f => Json.mkObj [("float", jNat f)]
   | .text s => Json.mkObj [("text", Json.str s)]
 
-/-- canonical renderer/parser pair used by the driver: floats are `F<token>`, text cells start with `T` -/
+/-- canonical renderer of abstract cells (used by the C10 driver): floats are `F<token>`, text cells start
+with `T` -/
 def renderCell : Cell → String
   | .int i => s!"I{i}"
   | .float f => s!"F{f}"
@@ -229,24 +230,6 @@ def runC18 (op : String) (j : Json) : R Json := do
     let rt := roundTrip d
     pure (Json.mkObj [("model", jList (fun (kv : Key × PV) => Json.arr #[jKey kv.1, jPV kv.2]) rt),
                       ("spec", jList (fun (kv : Key × PV) => Json.arr #[jKey kv.1, jPV (canon kv.2)]) d)])
-  | "tsv" =>
-    let rowsJ ← fld j "rows" >>= asArr
-    let rows ← rowsJ.mapM fun r => do
-      let cells ← asArr r
-      cells.mapM fun c => do
-        let p ← asArr c
-        match p with
-        | [f, v] => do pure (← asStr f, ← asCell v)
-        | _ => .error "cell"
-    let first ← match j.getObjVal? "first" with
-      | .ok v => asOpt asStr v
-      | .error _ => pure none
-    match writeTsv renderCell rows first with
-    | none => pure (Json.mkObj [("header", Json.null)])
-    | some file =>
-      pure (Json.mkObj [("header", jList Json.str file.1),
-                        ("expected", jList (jList fun (fc : String × Cell) => Json.arr #[Json.str fc.1, jCell fc.2])
-                            (expectedRows file.1 rows))])
   | _ => .error s!"C18: unknown op {op}"
 
 end PhyVerif.Driver
